@@ -1116,11 +1116,13 @@ func visitorsCopy(p *Prog, info *types.Info, pkg string, fd *ast.FuncDecl, param
 			if isNil(info, c.Args[paramIdx]) {
 				return true // no visitor at this call: nothing is handed out
 			}
-			lit, isLit := ast.Unparen(c.Args[paramIdx]).(*ast.FuncLit)
-			if !isLit {
-				msg = p.posStr(c.Pos()) + ": the visitor handed to " + fd.Name.Name + " is not a function literal: cannot establish that the stored []byte it receives is copied"
+			// a literal, a named function of the package or a method value
+			cbs := callbacksIn(p, info, c.Args[paramIdx])
+			if len(cbs) != 1 || cbs[0].Node != ast.Node(ast.Unparen(c.Args[paramIdx])) {
+				msg = p.posStr(c.Pos()) + ": the visitor handed to " + fd.Name.Name + " is not a function of this package (literal, named function or method value): cannot establish that the stored []byte it receives is copied"
 				return true
 			}
+			lit := cbs[0]
 			var raw types.Object
 			k := 0
 			for _, fl := range lit.Type.Params.List {
